@@ -96,10 +96,24 @@ Theorem C08_crash_paths_whole : forall (s : state) (ae : bool) (k : nat),
   (forall q c, gB f !! q = Some c -> c = [] \/ old c).
 Proof. exact (crash_paths_whole_lemma Hh dge cname kle). Qed.
 
-(** Sharper, for runs in which no path is a both-changed conflict: in every crash
-    state each path is - on both sides together - exactly as before the run or
-    exactly as after it. *)
-Theorem C08_crash_paths_old_or_new_partial : forall (s : state) (ae : bool) (k : nat) (x : K),
+(** Sharper, when conflict names are fresh (no path of either tree is a conflict
+    name) and determine their path: every (side, path) is written at most once by
+    the run, so in every crash state every live path holds on each side exactly
+    what it held before the run or exactly what the completed run leaves there.
+    There is no third, intermediate content - also not for a conflict path between
+    the delivery of the conflict copies and the delivery of the winner. *)
+Theorem C08_crash_paths_old_or_new : forall (s : state) (ae : bool) (k : nat) (x : K),
+  (forall p d, tA s !! cname p d = None /\ tB s !! cname p d = None) ->
+  (forall p d p' d', cname p d = cname p' d' -> p = p') ->
+  let f := crash s ae k in
+  let s' := (run s).1.1 in
+  (fA f !! x = tA s !! x \/ fA f !! x = tA s' !! x) /\
+  (fB f !! x = tB s !! x \/ fB f !! x = tB s' !! x).
+Proof. intros s ae k x Hf Hi. exact (crash_cells_old_or_new Hh dge cname kle s ae k x Hf Hi). Qed.
+
+(** For runs in which no path is a both-changed conflict (no premise on names):
+    each path is - on both sides together - as before the run or as after it. *)
+Theorem C08_crash_paths_old_or_new_both_sides : forall (s : state) (ae : bool) (k : nat) (x : K),
   (forall x, rpath (scan Hh (tA s) !! x) (scan Hh (tB s) !! x) (base_at (arch s) x) <> Some ConfBoth) ->
   let f := crash s ae k in
   let s' := (run s).1.1 in
@@ -132,7 +146,8 @@ Print Assumptions C08_archive_steps_last.
 Print Assumptions C08_crash_archive_old_absent_or_new.
 Print Assumptions C08_archive_after_data.
 Print Assumptions C08_crash_paths_whole.
-Print Assumptions C08_crash_paths_old_or_new_partial.
+Print Assumptions C08_crash_paths_old_or_new.
+Print Assumptions C08_crash_paths_old_or_new_both_sides.
 Print Assumptions C08_recovery_converges_partial.
 
 (** Non-vacuity.  K := nat, D := list Z, hash := identity.  Path 1 is new on A,
